@@ -366,14 +366,49 @@ func (c *Ctx) oauthPIDCodec(rule string) {
 		_, isParam := Arg(call, 0).(*ssa.Parameter)
 		r.Check(isParam, rule, pn, "splits the identifier verbatim", posf(c, call), "the text split is the parameter itself", "the identifier is transformed before it is split ("+SafeString(Arg(call, 0))+"): Parse(Make(provider, uid)) no longer returns (provider, uid) for every uid, so the session's identifier resolves to another pair than the provider reported")
 	}
+	// the success exits: a return with a nil error, or — in a single-exit
+	// function — the ways of arriving at the return on which the error is nil
+	type exit struct {
+		fs       []Fact
+		prov, id ssa.Value
+		pos      string
+	}
+	var exits []exit
 	for _, b := range ps.Blocks {
 		for _, in := range b.Instrs {
 			ret, ok := in.(*ssa.Return)
-			if !ok || len(ret.Results) != 3 || !IsNilConst(ret.Results[2]) {
+			if !ok || len(ret.Results) != 3 {
 				continue
 			}
-			fs := FactsAtInstr(ret)
-			pos := posf(c, ret)
+			if IsNilConst(ret.Results[2]) {
+				exits = append(exits, exit{FactsAtInstr(ret), ret.Results[0], ret.Results[1], posf(c, ret)})
+				continue
+			}
+			if ephi, isPhi := ret.Results[2].(*ssa.Phi); isPhi && ephi.Block() == ret.Block() {
+				for i, e := range ephi.Edges {
+					if !IsNilConst(e) {
+						continue
+					}
+					pick := func(v ssa.Value) ssa.Value {
+						if p, ok := v.(*ssa.Phi); ok && p.Block() == ephi.Block() && i < len(p.Edges) {
+							return p.Edges[i]
+						}
+						return v
+					}
+					pred := ephi.Block().Preds[i]
+					fs := append(append([]Fact{}, FactsAt(pred)...), FactsAtEdge(pred, ephi.Block())...)
+					exits = append(exits, exit{fs, pick(ret.Results[0]), pick(ret.Results[1]), posf(c, ret)})
+				}
+			}
+		}
+	}
+	if len(exits) == 0 {
+		r.Unknown(rule, pn, "success exit", "-", "no return with a nil error found in the reader")
+	}
+	for _, ex := range exits {
+		{
+			fs := ex.fs
+			pos := ex.pos
 			okLen := HasFact(fs, func(f Fact) bool {
 				rel := f.Rel()
 				n, isC := ConstInt(rel.Y)
@@ -386,7 +421,7 @@ func (c *Ctx) oauthPIDCodec(rule string) {
 				return isC && s == parts[0] && rel.Op == token.EQL && indexConst(rel.X) == 0
 			})
 			r.Check(okPrefix, rule, pn, "segments[0]==prefix", pos, "demands the writer's prefix", "reader does not demand the writer's prefix "+parts[0])
-			r.Check(indexConst(ret.Results[0]) == 1 && indexConst(ret.Results[1]) == 2, rule, pn, "returns segments[1], segments[2]", pos, "provider and uid in the writer's order", "reader returns the segments in a different order than the writer wrote them")
+			r.Check(indexConst(ex.prov) == 1 && indexConst(ex.id) == 2, rule, pn, "returns segments[1], segments[2]", pos, "provider and uid in the writer's order", "reader returns the segments in a different order than the writer wrote them")
 		}
 	}
 }
